@@ -119,6 +119,9 @@ func memberOfPool(p *Prog, fn *ssa.Function, v ssa.Value, param int, d int) bool
 }
 
 func runC11(p *Prog, r *Report) {
+	// R9: the affinity cookie the balancer put on the response survives a buffer in the chain: utils.CopyHeaders adds to the destination's values (shared with C06.R5)
+	r.Borrow(p, runC06, map[string]string{"C06.R5": "C11.R9"}, nil)
+	c11StampChecked(p, r)
 	// R8: the server the balancer chose (from the cookie or the rotation) is the one the forwarder dials: the outgoing URL keeps the Scheme and Host it was given (shared with C08.R1)
 	r.Borrow(p, runC08, map[string]string{"C08.R1": "C11.R8"}, nil)
 	c11CookieScope(p, r)
@@ -733,6 +736,7 @@ func c11GetBackend(p *Prog, r *Report) {
 func mutantsC11() []Mutant {
 	sc := "roundrobin/stickycookie/"
 	return []Mutant{
+		{Name: "aes-strips-stamp-without-lifetime", File: "roundrobin/stickycookie/aes_value.go", Old: "\tif v.ttl > 0 {\n\t\trawParts := strings.Split(string(raw), \"|\")\n", New: "\tif i := strings.Index(string(raw), \"|\"); i >= 0 && v.ttl <= 0 {\n\t\treturn string(raw[:i]), nil\n\t}\n\tif v.ttl > 0 {\n\t\trawParts := strings.Split(string(raw), \"|\")\n", Expect: "C11.R4"},
 		{Name: "cookie-path-not-defaulted", File: "roundrobin/stickysessions.go", Old: "\t\tPath:     cp,\n", New: "\t\tPath:     opt.Path,\n", More: []Edit{{"roundrobin/stickysessions.go", "\tcp := \"/\"\n\tif opt.Path != \"\" {\n\t\tcp = opt.Path\n\t}\n\n", ""}}, Expect: "C11.R7"},
 		{Name: "aes-expiry-in-nanoseconds", File: "roundrobin/stickycookie/aes_value.go", Old: ".Add(v.ttl).Unix())", New: ".Add(v.ttl).UnixNano())", Expect: "C11.R7"},
 		{Name: "raw-returns-parsed-url", File: sc + "raw_value.go", Old: "\t\tif ok {\n\t\t\treturn u, nil\n\t\t}", New: "\t\tif ok {\n\t\t\tpu, _ := url.Parse(raw)\n\t\t\treturn pu, nil\n\t\t}", Expect: "C11.R1"},
@@ -1031,4 +1035,63 @@ func nonEmptyString(p *Prog, fn *ssa.Function, v ssa.Value, at ssa.Instruction, 
 		}
 	}
 	return false
+}
+
+// c11StampChecked (R4): the encrypted cookie value is "<url>" or "<url>|<expiry>". A codec without lifetime
+// treats the whole payload as the URL (a stamped payload then matches no server); a codec with lifetime splits
+// the stamp off and checks it. Splitting the stamp off where it is NOT checked (ttl == 0) turns an expired
+// cookie of a sibling codec (migration chains share the key) into a valid one for ever — so every operation that
+// cuts the payload at the separator lies on the edge where the lifetime is positive.
+func c11StampChecked(p *Prog, r *Report) {
+	av := p.Named("roundrobin/stickycookie", "AESValue")
+	if av == nil {
+		return
+	}
+	ttl := fieldByRole(av, "ttl", isDurationT, nil)
+	if ttl == "" {
+		return
+	}
+	n := 0
+	for _, fn := range p.Methods(av) {
+		if fn.Blocks == nil {
+			continue
+		}
+		want := ParseLin("fld(p0)."+ttl, ">")
+		edges := edgesImplyingRaw(p, fn, want)
+		for _, c := range Calls(fn) {
+			o := calleeObj(c.Common())
+			if o == nil || o.Pkg() == nil || (o.Pkg().Path() != "strings" && o.Pkg().Path() != "bytes") {
+				continue
+			}
+			switch o.Name() {
+			case "Cut", "Split", "SplitN", "Index", "LastIndex", "IndexByte", "LastIndexByte", "SplitAfter", "Fields":
+			default:
+				continue
+			}
+			sep := false
+			for _, a := range c.Common().Args {
+				if sv, ok := constString(a); ok && sv == "|" {
+					sep = true
+				}
+				if k, ok := constInt(a); ok && k == '|' {
+					sep = true
+				}
+			}
+			if !sep {
+				continue
+			}
+			n++
+			r.Fn(FName(fn))
+			okE := false
+			for _, e := range edges {
+				if OnlyViaEdge(fn, c, e) {
+					okE = true
+				}
+			}
+			r.Paths++
+			r.Check(okE, "C11.R4", FName(fn)+": the expiry stamp is split off only where it is checked", p.InstrPos(c), "the payload is cut at '|' only on the ttl > 0 edge",
+				"the decoded cookie is cut at the stamp separator also when this codec has no lifetime: a stamped (possibly long expired) cookie minted with the same key is accepted for ever instead of being re-balanced")
+		}
+	}
+	r.Floor("C11.R4", n, 1, "places where the encrypted codec cuts the payload at the stamp separator")
 }
